@@ -528,9 +528,19 @@ class DynDiGraph(nx.DiGraph):
                 "The t argument must be specified.")
 
         # reject the call before anything is written (a rejected update leaves no trace)
-        if u in self._succ and v in self._succ[u] and t < self._succ[u][v]['t'][-1][0]:
-            raise ValueError("The specified interaction extension is broader than "
-                             "the ones already present for the given nodes.")
+        datadict = None
+        if u in self._succ and v in self._succ[u]:
+            datadict = self._succ[u][v]
+            if t < datadict['t'][-1][0]:
+                raise ValueError("The specified interaction extension is broader than "
+                                 "the ones already present for the given nodes.")
+
+        # closed span [t, end] covered by this call
+        closing = e is not None and self.edge_removal
+        end = e - 1 if closing else t
+        if end < t:
+            # empty span (e <= t): nothing becomes present
+            return
 
         if u not in self._succ:
             self._succ[u] = self.adjlist_inner_dict_factory()
@@ -541,86 +551,62 @@ class DynDiGraph(nx.DiGraph):
             self._pred[v] = self.adjlist_inner_dict_factory()
             self._node[v] = {}
 
-        if type(t) != list:
-            t = [t, t]
-
-        for idt in [t[0]]:
-            if self.has_edge(u, v) and not self.edge_removal:
-                continue
-            else:
-                if idt not in self.time_to_edge:
-                    self.time_to_edge[idt] = {(u, v, "+"): None}
-                else:
-                    if (u, v, "+") not in self.time_to_edge[idt]:
-                        self.time_to_edge[idt][(u, v, "+")] = None
-
-        if e is not None and self.edge_removal:
-
-            t[1] = e - 1
-            if e not in self.time_to_edge:
-                self.time_to_edge[e] = {(u, v, "-"): None}
-            else:
-                self.time_to_edge[e][(u, v, "-")] = None
-
-        # add the interaction
-        datadict = self.adj[u].get(v, self.edge_attr_dict_factory())
-
-        if 't' in datadict:
+        if datadict is None:
+            # first appearance of the interaction
+            datadict = self.edge_attr_dict_factory()
+            datadict['t'] = [[t, end]]
+            self.__add_event(u, v, "+", t)
+            if closing:
+                self.__add_event(u, v, "-", end + 1)
+            first_new = t
+        else:
             app = datadict['t']
-            max_end = app[-1][1]
+            start, max_end = app[-1]
+            if end <= max_end:
+                # the span is already covered by the latest presence interval
+                return
 
-            if max_end == app[-1][0] and t[0] == app[-1][0] + 1:
-
-                app[-1] = [app[-1][0], t[1]]
-                if app[-1][0] + 1 in self.time_to_edge and (u, v, "+") in self.time_to_edge[app[-1][0] + 1]:
-                    del self.time_to_edge[app[-1][0] + 1][(u, v, "+")]
-
+            if t <= max_end + 1:
+                # the span overlaps or touches the latest interval: extend it and move its vanishing event
+                closed = self.__del_event(u, v, "-", max_end + 1)
+                app[-1][1] = end
+                if self.edge_removal and (closing or closed or max_end > start):
+                    self.__add_event(u, v, "-", end + 1)
+                first_new = max_end + 1
             else:
-                if t[0] < app[-1][0]:
-                    raise ValueError("The specified interaction extension is broader than "
-                                     "the ones already present for the given nodes.")
+                # gap: a new presence interval starts
+                app.append([t, end])
+                if self.edge_removal:
+                    self.__add_event(u, v, "+", t)
+                if closing:
+                    self.__add_event(u, v, "-", end + 1)
+                first_new = t
 
-                if t[0] <= max_end < t[1]:
-                    app[-1][1] = t[1]
-                    if max_end + 1 in self.time_to_edge:
-                        if self.edge_removal:
-                            del self.time_to_edge[max_end + 1][(u, v, "-")]
-                        del self.time_to_edge[t[0]][(u, v, "+")]
-
-                elif max_end == t[0] - 1:
-                    if max_end + 1 in self.time_to_edge and (u, v, "+") in self.time_to_edge[max_end + 1]:
-                        del self.time_to_edge[max_end + 1][(u, v, "+")]
-                        if self.edge_removal:
-                            if max_end + 1 in self.time_to_edge and (u, v, '-') in self.time_to_edge[max_end + 1]:
-                                del self.time_to_edge[max_end + 1][(u, v, '-')]
-                            if t[1] + 1 in self.time_to_edge:
-                                self.time_to_edge[t[1] + 1][(u, v, "-")] = None
-                            else:
-                                self.time_to_edge[t[1] + 1] = {(u, v, "-"): None}
-
-                    app[-1][1] = t[1]
-                else:
-                    app.append(t)
-        else:
-            datadict['t'] = [t]
-
-        if e is not None:
-            span = range(t[0], t[1] + 1)
-            for idt in span:
-                if idt not in self.snapshots:
-                    self.snapshots[idt] = 1
-                else:
-                    self.snapshots[idt] += 1
-        else:
-            for idt in t:
-                if idt is not None:
-                    if idt not in self.snapshots:
-                        self.snapshots[idt] = 1
-                    else:
-                        self.snapshots[idt] += 1
+        # one more interaction in every snapshot in which this one was not yet present
+        for idt in range(first_new, end + 1):
+            self.snapshots[idt] = self.snapshots.get(idt, 0) + 2
 
         self._succ[u][v] = datadict
         self._pred[v][u] = datadict
+
+    def __add_event(self, u, v, op, t):
+        if t not in self.time_to_edge:
+            self.time_to_edge[t] = {}
+        for k in [(u, v, op)]:
+            if k in self.time_to_edge[t]:
+                return
+        self.time_to_edge[t][(u, v, op)] = None
+
+    def __del_event(self, u, v, op, t):
+        if t not in self.time_to_edge:
+            return False
+        for k in [(u, v, op)]:
+            if k in self.time_to_edge[t]:
+                del self.time_to_edge[t][k]
+                if len(self.time_to_edge[t]) == 0:
+                    del self.time_to_edge[t]
+                return True
+        return False
 
     def add_interactions_from(self, ebunch, t=None, e=None):
         """Add all the interaction in ebunch at time t.
